@@ -69,10 +69,37 @@ def seeded_table():
     return "\n".join(rows)
 
 
+def automut_table():
+    p = os.path.join(V, "notes", "automut.json")
+    if not os.path.exists(p):
+        return "(no sweep recorded yet)"
+    d = json.load(open(p))
+    per = {}
+    for k, e in d.items():
+        f = per.setdefault(e["file"], dict(caught=0, survived=0, other=0, surv=[]))
+        if e["verdict"] == "caught":
+            f["caught"] += 1
+        elif e["verdict"] == "survived":
+            f["survived"] += 1
+            f["surv"].append("%d `%s`" % (e["line"], e["op"]))
+        else:
+            f["other"] += 1
+    rows = ["| file | mutants | caught | survived (line, operator) |", "|---|---|---|---|"]
+    tc = ts = 0
+    for fn in sorted(per):
+        f = per[fn]
+        tc += f["caught"]
+        ts += f["survived"]
+        rows.append("| %s | %d | %d | %s |" % (fn, f["caught"] + f["survived"] + f["other"], f["caught"],
+                                             "; ".join(sorted(f["surv"])) or "-"))
+    rows.append("| **all** | %d | %d | %d survived |" % (len(d), tc, ts))
+    return "\n".join(rows)
+
+
 def main():
     p = os.path.join(V, "DESIGN.md")
     s = open(p).read()
-    for tag, fn in (("FIXED", fixed_table), ("SENS", sens_table), ("SEEDED", seeded_table)):
+    for tag, fn in (("FIXED", fixed_table), ("SENS", sens_table), ("SEEDED", seeded_table), ("AUTOMUT", automut_table)):
         b, e = "<!-- %s-BEGIN -->" % tag, "<!-- %s-END -->" % tag
         if b in s:
             s = s[:s.index(b) + len(b)] + "\n" + fn() + "\n" + s[s.index(e):]
